@@ -518,13 +518,15 @@ def rule_small_round5(repo, col):
                   % unparse(c, 60))
     # export-metadata
     rel = 'biom/cli/metadata_exporter.py'
-    if repo.has_func(rel, '_export_metadata'):
-        fn = repo.func(rel, '_export_metadata')
+    for q_ in ('_export_metadata', 'export_metadata'):
+        if not repo.has_func(rel, q_):
+            continue
+        fn = repo.func(rel, q_)
         drops = [c for c in ast.walk(fn) if isinstance(c, ast.Call) and
                  isinstance(c.func, ast.Attribute) and c.func.attr in (
                      'dropna', 'drop', 'query', 'drop_duplicates', 'head',
                      'tail', 'sample')]
-        col.check(not drops, 'SB-ALLIDS', rel, '_export_metadata',
+        col.check(not drops, 'SB-ALLIDS', rel, q_,
                   'every-id', drops[0] if drops else fn,
                   'the frame is written as built',
                   'rows are removed from the metadata frame before it is '
